@@ -167,7 +167,9 @@ def extract_vars(statement):
 
     variables = [v for v in variables if v[2] != ""]
 
-    return sorted(list(set(variables)), key=lambda var: var[2])
+    # Sort on the whole tuple, variable name first, so that references to the same
+    # variable from different statements are listed in a stable order.
+    return sorted(list(set(variables)), key=lambda var: (var[2], var[1], var[0]))
 
 
 def func_has_ctx_arg(func):
